@@ -226,6 +226,7 @@ type modEntry struct {
 	obj  bool // every field of object ref
 	elem bool // every element of slice base ref
 	typ  types.Type // obj: struct type of the object; elem: element type of the slice (nil if unknown)
+	mapT *types.Map // elem entry `m[*]` for a map m: every entry of that map (ref is the map itself)
 }
 
 func (x *Exec) frameCheck(st *State, a *Addr, pos token.Pos) {
@@ -247,6 +248,8 @@ func (x *Exec) frameCheck(st *State, a *Addr, pos token.Pos) {
 			return
 		case e.obj:
 			ok = append(ok, eq(ref, e.ref))
+		case e.elem && e.mapT != nil:
+			// entries of a map are not addressable: no ordinary store is covered by this entry
 		case e.elem:
 			if a.Kind == aElem {
 				ok = append(ok, eq(ref, e.ref))
@@ -301,6 +304,8 @@ func (x *Exec) modEntries(fc *FuncContract, target *ssa.Function, args map[strin
 				e.typ = deref(bt)
 			}
 			out = append(out, e)
+		case strings.HasSuffix(m, "[*]") && bt != nil && isMapType(bt):
+			out = append(out, modEntry{elem: true, ref: base, mapT: bt.Underlying().(*types.Map)})
 		case strings.HasSuffix(m, "[*]"):
 			e := modEntry{elem: true, ref: sx("sbase", base)}
 			if bt != nil {
@@ -431,6 +436,15 @@ func (x *Exec) havocMod(st *State, ents []modEntry) {
 			for _, cn := range x.allFieldComps(e.typ) {
 				st.heap[cn] = x.havocConst("mod_"+cn, x.comps[cn])
 			}
+		case e.elem && e.mapT != nil:
+			// every entry of that one map may change (key set, values, length); other maps of the type keep theirs
+			has, val, ln, hs, vs := x.mapComps(e.mapT)
+			ks, es := x.X.sortOf(e.mapT.Key()), x.X.sortOf(e.mapT.Elem())
+			st.heap[has] = x.define(x.fresh(has), hs, sx("store", x.heapGet(st, has, hs), e.ref, x.havocConst("mod_has", "(Array "+ks+" Bool)")))
+			st.heap[val] = x.define(x.fresh(val), vs, sx("store", x.heapGet(st, val, vs), e.ref, x.havocConst("mod_val", "(Array "+ks+" "+es+")")))
+			nl := x.havocConst("mod_len", "Int")
+			x.assume(st, and(sx("<=", "0", nl), sx("<=", nl, "281474976710656")))
+			st.heap[ln] = x.define(x.fresh(ln), "(Array Int Int)", sx("store", x.heapGet(st, ln, "(Array Int Int)"), e.ref, nl))
 		case e.elem && e.typ != nil && !isStruct(e.typ):
 			cn, srt := x.elemComp(e.typ)
 			x.comp(cn, srt)
@@ -707,6 +721,9 @@ func (x *Exec) frameCheckCall(st *State, ents []modEntry, pos token.Pos) {
 				if m.obj && !e.obj && !e.elem {
 					ok = append(ok, eq(e.ref, m.ref))
 				}
+				if m.elem && e.elem && (m.mapT == nil) != (e.mapT == nil) {
+					continue
+				}
 				if m.elem && e.elem {
 					// the callee may write the elements of a slice whose elements the caller may write
 					ok = append(ok, eq(e.ref, m.ref))
@@ -727,12 +744,19 @@ func (x *Exec) builtinCall(f *frame, b *ssa.Builtin, in ssa.Instruction, c *ssa.
 	switch b.Name() {
 	case "len", "cap", "min", "max", "ssa:deferstack":
 		v := in.(ssa.Value)
-		return Val{T: f.builtinPure(b, v, args)}
+		r := f.builtinPure(b, v, args)
+		if (b.Name() == "len" || b.Name() == "cap") && !x.X.bvMode {
+			// lengths and capacities are non-negative and bounded by the address space
+			ri := f.toInt(r, v.Type())
+			x.assume(st, and(sx("<=", "0", ri), sx("<=", ri, "281474976710656")))
+		}
+		return Val{T: r}
 	case "append":
 		return x.appendCall(f, in.(ssa.Value), c, args)
 	case "copy":
 		return x.copyCall(f, in.(ssa.Value), c, args)
 	case "delete":
+		x.frameCheckMap(st, args[0].T, in.Pos())
 		mt := c.Args[0].Type().Underlying().(*types.Map)
 		has, _, ln, hs, _ := x.mapComps(mt)
 		h := x.heapGet(st, has, hs)
@@ -891,6 +915,7 @@ func (x *Exec) mapUpdate(f *frame, in *ssa.MapUpdate) {
 	mt := in.Map.Type().Underlying().(*types.Map)
 	m, k, v := x.val(in.Map), x.val(in.Key), x.val(in.Value)
 	x.safety(st, "nilmap", not(eq(m.T, "0")), in.Pos())
+	x.frameCheckMap(st, m.T, in.Pos())
 	has, val, ln, hs, vs := x.mapComps(mt)
 	h := x.heapGet(st, has, hs)
 	was := sx("select", sx("select", h, m.T), k.T)
@@ -1131,4 +1156,24 @@ func (x *Exec) loopAddsToMap(li *loopInfo, mt *types.Map) bool {
 		}
 	}
 	return false
+}
+
+func isMapType(t types.Type) bool { _, ok := t.Underlying().(*types.Map); return ok }
+
+// frameCheckMap: a store into (or delete from) map m inside a function with a modifies
+// clause must be covered by an entry `m[*]` (or `*`), unless m was allocated by this call.
+func (x *Exec) frameCheckMap(st *State, m Term, pos token.Pos) {
+	if x.fc == nil || !x.fc.HasMod {
+		return
+	}
+	ok := []Term{sx(">", m, x.entry.allocTop)}
+	for _, e := range x.modEntries(x.fc, x.fn, nil, x.entry) {
+		if e.all {
+			return
+		}
+		if e.elem && e.mapT != nil {
+			ok = append(ok, eq(m, e.ref))
+		}
+	}
+	x.oblige(st, "frame", fmt.Sprintf("frame:%d", x.ordinal("frame")), or(ok...), pos, false, x.props())
 }
